@@ -16,6 +16,10 @@ Qed.
 Lemma get_state_put l a s a' : get_state (put_state l a s) a' = if a' =? a then Some s else get_state l a'.
 Proof. unfold get_state, put_state, set_accts. cbn [accts]. apply nget_nset. Qed.
 
+Lemma acct_at_set_intx_gen l v a : acct_at (set_intx l v) a = acct_at l a. Proof. reflexivity. Qed.
+Lemma acct_at_set_outtx_gen l v a : acct_at (set_outtx l v) a = acct_at l a. Proof. reflexivity. Qed.
+Lemma acct_at_set_txh_gen l v a : acct_at (set_txh l v) a = acct_at l a. Proof. reflexivity. Qed.
+
 (* two ledgers agree on everything the ledger properties speak about, except the wallet indexes:
    accounts extensionally (absent = all-zero), delegate records, staked total *)
 Definition same_accounts (l1 l2 : ledger) : Prop := forall a, acct_at l1 a = acct_at l2 a.
